@@ -106,7 +106,7 @@ def _layer2(rep, tier):
 ATOMS = ["1", "-1", "0", "9223372036854775807", "-9223372036854775808", "1u", "0u", "18446744073709551615u", "18446744073709551616u", "9223372036854775808", "-9223372036854775809.0", "9223372036854775808.0", "1.5", "0.0", "1e308", "1e999",
          '"a"', '""', '"1"', 'b"a"', r'b"Ā"', r'b"\U00000041"', r'b"\xff"', r'"\U0001F431"', r'"\U00110000"', r'"\UFFFFFFFF"', r'b"\UFFFFFFFF"', r'"\ud800"', "true", "false", "null", "[]", "[1]", '[1, "a"]', "[[1]]", "{}", '{"a": 1}', "{1: 2}",
          "{[1]: 2}", "{1.5: 1}", "{null: 1}", "{1: 2, 1: 3}", '{"a": 1/0}', "[1/0]", 'timestamp("2020-01-01T00:00:00Z")', 'timestamp("0001-01-01T00:00:00Z")', 'timestamp("9999-12-31T23:59:59Z")',
-         'duration("1s")', 'duration("-1s")', "int", "type", "type(1)", "type(type(1)) == type", "vi", "vs", "vl", "vm", "vn", "vb", "vd", "vby", "vts", "vdur", "vmissing", "vu", '"+14:00"', '"America/Nowhere"', '"("',
+         'duration("1s")', 'duration("-1s")', "int", "type", "type(1)", "type(type(1)) == type", "vi", "vs", "vl", "vm", "vn", "vb", "vd", "vby", "vts", "vdur", "vmissing", "vu", '"+14:00"', '"America/Nowhere"', '"America"', '"Etc"', '"("',
          '"999999999999h"', "9999999999999", "x", "T{a: 1}", "T{a: 1, a: 2}", "vm{a: 1}", "a.b.c", ".vi", ".vmissing", "[1, 2].map(package, package + 1)", "[1, 2].exists(get, get == 1)", "[1].map(clone, clone)", ".size(vl)", ".nosuch(1)", "vmn", "vmn.n", '{"a": null}.a', '{"f": null}', "vm.k", "vm.nokey",
          # maps whose keys are of different kinds (no order between them), selected / indexed by a key that is missing
          '{1: "x", "b": 2}', '{1: "x", "b": 2}.c', 'has({true: 1, 2: 2}.c)', '{1u: 1, "b": 2}["c"]', "vmx", "vmx.c", "has(vmx.c)",
